@@ -25,6 +25,16 @@ def objects(rng, tier):
     lita = '80 ' + ' '.join('%s 3f800000 40000000 40400000 00000000' % hx(n) for n in names) + ' 1 1 x6368 3f000000'
     for i in range(25): widea.append('frame 0 - ' + lita)
     out.append(('wide-frames-with-analogs', widea))
+    # analog-only recordings whose frame holds 1 KiB of samples or more (300 channels x 1 sub-frame; 64 channels x 5 sub-frames):
+    # the same threshold, reached through the analog writer
+    for tag, nch, nsub in (('wide-analog-only-frames', 300, 1), ('wide-analog-only-subframes', 64, 5)):
+        chans = [b'a%03d' % i for i in range(nch)]
+        o = ['new 0'] + ['analog 0 ' + hx(c) for c in chans] + ['P.new x52415445 x', 'P.set F 0 1 42c80000', 'param 0 x504f494e54',
+                                                                 'P.new x52415445 x', 'P.set F 0 1 %s' % harness.fhex(harness.f2bits(100.0 * nsub)), 'param 0 x414e414c4f47']
+        sub = '%d %s' % (nch, ' '.join('%s 3f000000' % hx(c) for c in chans))
+        lit = '0 %d %s' % (nsub, ' '.join([sub] * nsub))
+        for i in range(12): o.append('frame 0 - ' + lit)
+        out.append((tag, o))
     return out
 
 def run(rep, work, rng, tier):
